@@ -3,6 +3,7 @@
 #include "NameCollector.h"
 
 #include <stack>
+#include <memory>
 #include <limits>
 #include <optional>
 
@@ -15,6 +16,29 @@ using ccl::object::StructuredData;
 using ccl::object::Factory;
 
 namespace ccl::rslang {
+
+namespace {
+
+//! Restores value of a local variable slot on scope exit
+/*
+  All locals with the same name share one slot. Normalization can place a copy of a domain expression
+  inside the scope of a variable with the same name as one of the domain's own binders
+  (enumerated declaration: Q a,b in S -> Q a in S Q b in S), so binders restore the previous value.
+*/
+class SlotGuard {
+  std::vector<StructuredData>& slots;
+  uint32_t slotID;
+  StructuredData savedValue;
+
+public:
+  SlotGuard(std::vector<StructuredData>& slots, const uint32_t slotID)
+    : slots{ slots }, slotID{ slotID }, savedValue{ slots.at(slotID) } {}
+  ~SlotGuard() { slots.at(slotID) = savedValue; }
+  SlotGuard(const SlotGuard&) = delete;
+  SlotGuard& operator=(const SlotGuard&) = delete;
+};
+
+} // namespace
 
 class ASTInterpreter::ImpEvaluator {
 public:
@@ -43,6 +67,12 @@ private:
 public:
   [[nodiscard]] bool Evaluate() {
     CreateBlockMetadata();
+    std::vector<std::unique_ptr<SlotGuard>> guards{};
+    for (const auto& block : metaData) {
+      if (block.rootID == TokenID::ITERATE || block.rootID == TokenID::ASSIGN) {
+        guards.emplace_back(std::make_unique<SlotGuard>(parent.idsData, block.arg));
+      }
+    }
     for (current = 0; ; ++current) {
       incrementIter = false;
       if (HasReachedEnd()) {
@@ -296,6 +326,7 @@ bool ASTInterpreter::ViQuantifier(Cursor iter) {
   }
 
   const auto varID = *begin(nodeVars[iter.Child(0).get()]);
+  const SlotGuard guard{ idsData, varID };
   const auto isUniversal = iter->id == TokenID::FORALL;
   for (const auto& child : domain->B()) {
     if (++iterationCounter > MAX_ITERATIONS) {
@@ -406,6 +437,7 @@ bool ASTInterpreter::ViDeclarative(Cursor iter) {
     return false;
   }
   const auto varID = *begin(nodeVars[iter.Child(0).get()]);
+  const SlotGuard guard{ idsData, varID };
   auto result = Factory::EmptySet();
   for (const auto& child : setDomain->B()) {
     if (++iterationCounter > MAX_ITERATIONS) {
@@ -442,6 +474,7 @@ bool ASTInterpreter::ViRecursion(Cursor iter) {
     return false;
   }
   const auto varID = *begin(nodeVars[iter.Child(0).get()]);
+  const SlotGuard guard{ idsData, varID };
   StructuredData current = initial.value();
   do {
     if (++iterationCounter > MAX_ITERATIONS) {
